@@ -14,7 +14,7 @@ func DrawEPConfig(t *rapid.T, label string) EPConfig {
 		SndWnd:     rapid.SampledFrom(wnds).Draw(t, label+"sndwnd"),
 		RcvWnd:     rapid.SampledFrom(wnds).Draw(t, label+"rcvwnd"),
 		NoDelay:    rapid.IntRange(0, 1).Draw(t, label+"nodelay"),
-		Interval:   rapid.SampledFrom([]int{10, 20, 40, 100, 200}).Draw(t, label+"interval"),
+		Interval:   rapid.SampledFrom([]int{10, 10, 20, 20, 40, 40, 100, 100, 200, 200, 1000, 5000}).Draw(t, label+"interval"),
 		Resend:     rapid.SampledFrom([]int{0, 1, 2, 5}).Draw(t, label+"resend"),
 		NC:         rapid.IntRange(0, 1).Draw(t, label+"nc"),
 		AckNoDelay: rapid.Bool().Draw(t, label+"acknodelay"),
